@@ -114,6 +114,10 @@ func (s *balSnap) total(denom string) nd.Z {
 // C02 (zero-sum, fixed-price settlement accounting), C19 (terms unchanged).
 func H_Block() {
 	now := nd.Time("now")
+	if nd.Param("overflow", 0) == 1 {
+		// extreme-amount tier: the library's 256/315-bit overflow panics are explored
+		nd.Option("overflow")
+	}
 	e := env.New(now)
 	setParams(e, "p.")
 	sp := pickSpec("a.", 0)
@@ -121,12 +125,17 @@ func H_Block() {
 	setAuctionSeq(e, 1)
 	pre := snapshot(e, trackedAccounts(0))
 	preA := st.auction()
+	if nd.Param("overflow", 0) == 1 {
+		// listed finding: with some amount or price at or above 2^128 the 18-decimal arithmetic of matching/settlement can exceed the library's limits
+		nd.Known("C07-overflow-with-amounts-above-2^128", anyHuge())
+	}
 	lastEnd := st.base.EndTimes[len(st.base.EndTimes)-1]
 	auctioneer := addr(st.base.Auctioneer)
 
 	var err error
 	panicked := nd.Try(func() { err = e.K.BeginBlocker(e.Ctx) })
 	nd.Assert("C07.block-does-not-panic", !panicked)
+	nd.ClearKnown()
 	if panicked {
 		return
 	}
